@@ -241,6 +241,9 @@ class SolveContract(FunctionContract):
         n, lags, leads = env.n, env.lags, env.leads
         loc = g['locate_order']
         bad_minmax = o['min_iter'] > o['max_iter']
+        # solve() itself writes no bookkeeping and no values: everything it changes, it changes through the single-period solver
+        ctx.prove(z3.And(env.status.arr == env.status0, env.iterations.arr == env.iter0, env.store.data == env.vars0),
+                  'solve_changes_the_model_only_through_the_single_period_solver', 'frame')
 
         if out.kind == 'raise':
             cls = exc_class(out.exc)
